@@ -220,7 +220,7 @@ EXT_TYPES = [r'serde_json\s*::\s*\w+', r'snap\s*::\s*\w+', r'uuid\s*::\s*Error',
 SYNTHETIC_VARIANTS = ['Other', 'Compress', 'Decompress', 'HeaderBuild']
 
 
-def gen_details():
+def gen_details(mode='verus', only=None):
     """R4: project `error::Details` mechanically from /repo/avro/src/error.rs: every variant is kept with its payload shape;
     payload types are mapped (std::io::Error -> IoError model, third-party error types -> ExtErr opaque). `#[error(..)]`
     display attributes and derives are dropped. Synthetic variants used by logged rewrites are appended."""
@@ -262,10 +262,15 @@ def gen_details():
                         txt += ' '
                 payload = txt
                 k = e + 1
-            payload = re.sub(r'std\s*::\s*io\s*::\s*Error', 'IoError', payload)
+            if mode == 'verus':
+                payload = re.sub(r'std\s*::\s*io\s*::\s*Error', 'IoError', payload)
+            else:
+                for t in (r'Box\s*<\s*Error\s*>', r'\bValueKind\b', r'\bSchemaKind\b', r'\bValue\b', r'\bRecordSchema\b', r'\bUnionSchema\b', r'\bSchema\b', r'\bName\b'):
+                    payload = re.sub(t, 'ExtErr', payload)
             for ext in EXT_TYPES:
                 payload = re.sub(ext, 'ExtErr', payload)
-            out.append('    %s%s,' % (name, payload))
+            if only is None or name in only:
+                out.append('    %s%s,' % (name, payload))
             if k < c and toks[k][1] == ',':
                 k += 1
             continue
@@ -273,7 +278,8 @@ def gen_details():
     for sv in SYNTHETIC_VARIANTS:
         if sv not in names:
             out.append('    %s,   // synthetic (R4/R6 projection target)' % sv)
-    return '#[allow(inconsistent_fields)]\npub enum Details {\n' + '\n'.join(out) + '\n}\n', len(names)
+    head = '#[allow(inconsistent_fields)]\n' if mode == 'verus' else ''
+    return head + 'pub enum Details {\n' + '\n'.join(out) + '\n}\n', len(names)
 
 
 def parse_template(path, seen=None):
